@@ -31,7 +31,7 @@ TOLERANCES = {"area": 1e-9, "voronoi": 1e-9}
 def bound(tier):
     return {
         "quick": "8 films x 4 hole sets (where they fit) x terminals {none,two} at (max_edge 1.0, smooth 0), + settings sweep {0.6, min_points 300, smooth 2, xi 0.5/2} on 4 films",
-        "thorough": "8 films x 4 hole sets x terminals x max_edge {1.0,0.6,0.4} x min_points {None,300} x smooth {0,2,20} x xi {0.5,1,2}",
+        "thorough": "8 films x 4 hole sets x [max_edge {1.0,0.6,0.4} x smooth {0,2,20} x xi {0.5,1,2} + min_points 300 (2 settings) + no terminals] = 960 meshes",
     }[tier]
 
 
@@ -52,8 +52,13 @@ def cases(tier, seed):
             for mel, mp, sm, xi in ((0.6, None, 0, 1.0), (1.0, 300, 0, 1.0), (1.0, None, 2, 1.0), (1.0, None, 0, 0.5), (1.0, None, 0, 2.0), (0.6, None, 2, 2.0)):
                 out.append(dict(film=f, holes="circle", terminals=2, mel=mel, min_points=mp, smooth=sm, xi=xi))
     else:
-        for f, h, t, mel, mp, sm, xi in itertools.product(FILMS, HOLES, (0, 2), (1.0, 0.6, 0.4), (None, 300), (0, 2, 20), (0.5, 1.0, 2.0)):
-            out.append(dict(film=f, holes=h, terminals=t, mel=mel, min_points=mp, smooth=sm, xi=xi))
+        # terminals do not influence the mesh: the settings sweep is run with terminals, the no-terminal devices once
+        for f, h in itertools.product(FILMS, HOLES):
+            out.append(dict(film=f, holes=h, terminals=0, mel=1.0, min_points=None, smooth=0, xi=1.0))
+            out.append(dict(film=f, holes=h, terminals=2, mel=1.0, min_points=300, smooth=0, xi=1.0))
+            out.append(dict(film=f, holes=h, terminals=2, mel=0.6, min_points=300, smooth=2, xi=2.0))
+            for mel, sm, xi in itertools.product((1.0, 0.6, 0.4), (0, 2, 20), (0.5, 1.0, 2.0)):
+                out.append(dict(film=f, holes=h, terminals=2, mel=mel, min_points=None, smooth=sm, xi=xi))
     return out
 
 
